@@ -123,6 +123,22 @@ UniqueKinds(em) ==
         (i # j /\ <<em[i].a, em[i].r, em[i].e>> \in LifeCycle)
         => ~(em[i].a = em[j].a /\ em[i].o = em[j].o /\ em[i].r = em[j].r /\ em[i].e = em[j].e)
 
+(* every entry is stamped with the time at which it was emitted, and the    *)
+(* life-cycle transitions and their entries correspond one to one           *)
+Has(new, a, o, r, e) == \E i \in 1..Len(new) : new[i].a = a /\ new[i].o = o /\ new[i].r = r /\ new[i].e = e
+StampOK(new, B) == \A i \in 1..Len(new) : new[i].t = B.now
+CorrespOK(A, B, new) ==
+    \A o \in ObsNames :
+      /\ (A.obs[o].ast = NoneT /\ B.obs[o].ast # NoneT) <=> Has(new, "instrument", o, "telescope", "started")
+      /\ (A.obs[o].status # "FINISHED" /\ B.obs[o].status = "FINISHED") <=> Has(new, "instrument", o, "telescope", "finished")
+      /\ (o \notin A.sch.queue /\ o \in B.sch.queue) <=> Has(new, "scheduler", o, "queue", "added")
+      /\ (o \in A.sch.queue /\ o \notin B.sch.queue) <=> Has(new, "scheduler", o, "queue", "removed")
+      /\ (o \in A.sch.queue /\ o \notin B.sch.queue) => (Has(new, "scheduler", o, "allocation", "stopped")
+                                                        /\ Has(new, "buffer", o, "buffer", "removed"))
+      /\ (A.obs[o].planAst = NoneT /\ B.obs[o].planAst # NoneT) <=> Has(new, "scheduler", o, "allocation", "started")
+      /\ Has(new, "buffer", o, "buffer", "added") => (A.obs[o].data = 0 /\ B.obs[o].status = "RUNNING")
+      /\ (A.obs[o].data = 0 /\ B.obs[o].data > 0 /\ B.obs[o].status = "RUNNING") => Has(new, "buffer", o, "buffer", "added")
+
 RowOK(A, row) == \A c \in DOMAIN TrueRow(A) : row[c] = TrueRow(A)[c]
 
 Report(ok, tag, i, what) == IF ok THEN TRUE ELSE PrintT(<<tag, tid, i, what>>)
@@ -130,8 +146,9 @@ Report(ok, tag, i, what) == IF ok THEN TRUE ELSE PrintT(<<tag, tid, i, what>>)
 EndChecks(tr, i) ==
     LET e == tr.end
         X == Abs(e.st)
-    IN /\ Report(cfg.alg = "adv" \/ tr.cfg.api \/ (e.exc.type = "" /\ ~e.budget), "L1", i, "C05.completes")
-       /\ Report(cfg.alg = "adv" \/ tr.cfg.api \/ e.budget \/ e.t <= SerialBound * K, "L1", i, "C05.bound")
+    IN /\ Report(cfg.alg = "adv" \/ tr.cfg.api \/ ~FeasibleCfg(cfg) \/ (e.exc.type = "" /\ ~e.budget), "L1", i, "C05.completes")
+       /\ Report(cfg.alg = "adv" \/ tr.cfg.api \/ ~FeasibleCfg(cfg) \/ e.budget \/ e.t <= SerialBound * K, "L1", i, "C05.bound")
+       /\ Report((\E o \in ObsNames : OCfg(o).rate > cfg.hotRate) => e.exc.type = "ValueError", "L1", i, "C07.rejects")
        /\ IF e.completed /\ e.exc.type = "" /\ Len(tr.segs) = 0 /\ ~tr.cfg.api
           THEN /\ Report(End_C02(X), "L1", i, "C02.end")
                /\ Report(End_C04(X), "L1", i, "C04.end")
@@ -182,6 +199,9 @@ TNext == /\ l < Len(Steps(tid))
                /\ Report(NoLoss(em2, lg2, B), "L1", l + 1, "C13.noloss")
                /\ Report(NoDup(em2, lg2), "L1", l + 1, "C13.nodup")
                /\ Report(em2 = emit \/ UniqueKinds(em2), "L1", l + 1, "C13.unique")
+               /\ Report(StampOK(NewEmitted(A, B), B), "L1", l + 1, "C13.stamp")
+               /\ Report(cfg.api \/ rec.lab.kind = "STOPR" \/ CorrespOK(A, B, NewEmitted(A, B)), "L1", l + 1, "C13.corresp")
+               /\ Report(\A o \in ObsNames : OCfg(o).rate > cfg.hotRate => B.obs[o].data = 0, "L1", l + 1, "C07.overrate")
                /\ IF l + 1 = Len(Steps(tid)) THEN EndChecks(TData.traces[tid], l + 1) ELSE TRUE
                /\ IF l = 1 /\ ~TData.traces[tid].cfg.api /\ ~MatchS(StartState, A)
                   THEN PrintT(<<"DRIFT", tid, 1, "INIT", {f \in DOMAIN Norm(A) : Norm(A)[f] # Norm(StartState)[f]}>>)
